@@ -13,7 +13,9 @@ def run_case(exe, rundir, case, timeout=60, keep=False):
     d = os.path.join(rundir, str(case["id"]))
     shutil.rmtree(d, ignore_errors=True)
     os.makedirs(d)
-    stub = os.path.join(d, "m")
+    # the stub as AMPL passes it (no .nl); "stub_name" may contain dots and a sub-directory ("run.2/m.v2")
+    stub = os.path.join(d, case.get("stub_name", "m"))
+    os.makedirs(os.path.dirname(stub), exist_ok=True)
     info = None
     if "model" in case:
         info = nlgen.write_nl(case["model"], stub)
